@@ -53,30 +53,29 @@ Proof.
   apply Nat.ltb_lt in Hlt. intro H. split; [exact Hlt|].
   set (G := nth (ev_g e) (s_gs s) dummy_g) in *.
   destruct e; simpl in *; destruct (g_pc G) eqn:Hpc; try discriminate.
-  - (* Sort *) inversion H; subst; clear H. eexists; split; [reflexivity|].
-    unfold mu_g; simpl; rewrite Hpc; simpl; lia.
+  - (* Sort *)
+    destruct (g_own G); inversion H; subst; clear H; (eexists; split; [reflexivity|]);
+      unfold mu_g; simpl; rewrite Hpc; simpl; lia.
   - (* Pick *)
-    destruct (g_vlen G =? 0) eqn:Hv.
+    destruct (length (view s G) =? 0) eqn:Hv.
     + inversion H; subst; clear H. eexists; split; [reflexivity|].
       unfold mu_g; simpl; rewrite Hpc; simpl; lia.
     + destruct (max_retry <? S (g_retry G)) eqn:Hr.
       * inversion H; subst; clear H. eexists; split; [reflexivity|].
         unfold mu_g; simpl; rewrite Hpc; simpl; lia.
       * apply Nat.ltb_ge in Hr. unfold max_retry in Hr.
-        destruct (scan c ts (s_tnum s) (g_h G) (limit_of (g_vlen G)) (firstn (g_vlen G) (s_arr s)) 0)
+        destruct (scan c ts (s_tnum s) (g_h G) (limit_of (length (view s G))) (view s G) 0)
           as [[t i]|]; inversion H; subst; clear H; (eexists; split; [reflexivity|]);
           unfold mu_g; cbn [g_pc g_retry rank]; rewrite Hpc; cbn [rank]; lia.
   - (* Result *)
-    destruct (is_stall (c_beh c (task_peer ts t) (g_h G))); [discriminate|].
     destruct (accepted (c_beh c (task_peer ts t) (g_h G))); inversion H; subst; clear H;
       (eexists; split; [reflexivity|]); unfold mu_g; simpl; rewrite Hpc; simpl; lia.
   - (* Release, failed *) inversion H; subst; clear H. eexists; split; [reflexivity|].
     unfold mu_g; simpl; rewrite Hpc; simpl; lia.
   - (* Release, ok *) inversion H; subst; clear H. eexists; split; [reflexivity|].
     unfold mu_g; simpl; rewrite Hpc; simpl; lia.
-  - (* Remove *)
-    destruct (g_vlen G <? nth t (s_idx s) 0 + 1); inversion H; subst; clear H;
-      (eexists; split; [reflexivity|]); unfold mu_g; simpl; rewrite Hpc; simpl; lia.
+  - (* Remove *) inversion H; subst; clear H. eexists; split; [reflexivity|].
+    unfold mu_g; simpl; rewrite Hpc; simpl; lia.
   - (* Sleep *) inversion H; subst; clear H. eexists; split; [reflexivity|].
     unfold mu_g; simpl; rewrite Hpc; simpl; lia.
 Qed.
@@ -131,24 +130,17 @@ Proof.
   rewrite mu_init in H. lia.
 Qed.
 
-(** a goroutine waits for an answer that never comes *)
-Definition waits_forever (c : config) (ts : list task) (G : gstate) : bool :=
-  match g_pc G with
-  | PReq t => is_stall (c_beh c (task_peer ts t) (g_h G))
-  | _ => false
-  end.
-
-(** progress: a goroutine that has not returned and does not wait for a silent
-    peer can always take its next event *)
+(** progress: a goroutine that has not returned can always take its next
+    event (every request ends: with a block, an error, or the stream deadline) *)
 Lemma next_event_enabled c ts s g e :
-  g < length (s_gs s) -> waits_forever c ts (nth g (s_gs s) dummy_g) = false ->
+  g < length (s_gs s) ->
   next_event (nth g (s_gs s) dummy_g) g = Some e ->
   exists s', step c ts s e = Some s'.
 Proof.
-  intros Hlt Hw Hn. unfold next_event in Hn. unfold waits_forever in Hw.
+  intros Hlt Hn. unfold next_event in Hn.
   assert (Hb : (g <? length (s_gs s)) = true) by (apply Nat.ltb_lt; exact Hlt).
   destruct (g_pc (nth g (s_gs s) dummy_g)) eqn:Hpc; inversion Hn; subst; clear Hn;
-    unfold step; simpl; rewrite Hb; simpl; rewrite Hpc; try rewrite Hw.
+    unfold step; simpl; rewrite Hb; simpl; rewrite Hpc.
   all: repeat match goal with
        | |- exists _, (if ?b then _ else _) = _ => destruct b
        | |- exists _, match ?x with _ => _ end = _ => destruct x
@@ -171,9 +163,8 @@ Proof.
 Qed.
 
 Lemma progress c ts s :
-  (forall g, g < length (s_gs s) -> waits_forever c ts (nth g (s_gs s) dummy_g) = false) ->
   all_done s = false -> exists e s', step c ts s e = Some s'.
 Proof.
-  intros Hw H. destruct (not_all_done_has_next s H) as [g [e [Hg Hn]]].
-  destruct (next_event_enabled c ts s g e Hg (Hw g Hg) Hn) as [s' Hs]. exists e, s'. exact Hs.
+  intros H. destruct (not_all_done_has_next s H) as [g [e [Hg Hn]]].
+  destruct (next_event_enabled c ts s g e Hg Hn) as [s' Hs]. exists e, s'. exact Hs.
 Qed.
